@@ -30,7 +30,15 @@ Domain decisions (skip, never ok/violation): multi-frame rst7/ncrst write `path.
 is an existing OUTPUT path; when only `path` itself pre-exists and no `path.N`, nothing the call writes pre-exists
 (skip, the base file is still monitored for modification).  With force_overwrite=True, numbered files of a longer old
 save that are not outputs of the new save survive; whether the numbered set is one unit is not said by the
-statement: skipped and counted (`observed.stale_numbered_survivors`).  atime is not part of the property."""
+statement: skipped and counted (`observed.stale_numbered_survivors`).  atime is not part of the property.
+
+Round 5 (widened input classes, same monitors): entry "class" (format class constructor), `style` (how force_overwrite is
+handed over: pos / default / npbool / int / opts), `form` (path forms, see FORMS; the form CLASS is part of the key:
+`file[pathobj]`, `file[relpath]`, `file[name]`, `file[link]`, `file[perm]`), contents `otherfmt` / `dir` / `none`
+(dangling link), ops `badmode`, `append` (HDF5 'a': monitor append.keeps-old), `seq`, `defaults` (monitor
+default.documented), and for the read-only clause the monitors read.no-sidecar (directory listing, mtime and mode of the
+file's directory unchanged; the directory mtime is set back to 2001 first) and read.readonly-ok (a 0444 file / 0555
+directory must still be readable; skipped when running as root)."""
 from __future__ import annotations
 
 import atexit
@@ -40,6 +48,7 @@ import hashlib
 import itertools
 import json
 import os
+import pathlib
 import re
 import shutil
 import stat
@@ -61,22 +70,41 @@ RULE = ("case = (extension, pre-existing content class, single/multi-frame new t
         "middle/last/two numbered files, base only, base+numbered} x {1, 3 frames} x {Trajectory.save, save_<fmt>, "
         "md.open('w')} x {False, True}; plus (readable format x read entry point) for the read-only clause.  Both tiers "
         "enumerate that table completely; thorough adds shape/path-form/content variants, every non-empty subset of "
-        "numbered files, repository test-data files, and the strace group.  non-trivial = a monitor decided; distinct = "
-        "distinct descriptors")
+        "numbered files, repository test-data files, and the strace group.  Round 5 adds, in both tiers: the file class "
+        "constructors called directly; force_overwrite passed positionally / omitted (pinned default decides the clause) / as "
+        "numpy bool / int / with the saver's other options; 21 path forms (pathlib, generic os.PathLike, bytes, relative to a "
+        "changed cwd, './', '../', '/./', '//', trailing separator, several dots, upper/mixed-case extension, blanks, "
+        "non-ascii, symlink absolute/relative/dangling/to a directory, hard link, read-only file, read-only directory) x "
+        "every extension x every entry point x both force_overwrite values; .pdb.bz2/.xyz.bz2/.gro.gz through the savers; "
+        "pre-existing valid file of ANOTHER format and directory at a file path; undocumented mode strings; HDF5 mode 'a'; "
+        "second call on a file the same process just wrote / that is held open for reading; docstring default vs "
+        "signature; 10 more read entry points (format loaders with options, load(frame=), load(top=<file>) with the "
+        "topology file watched, class constructors, force_overwrite=True on a read, seek whence, offsets, open+close, read "
+        "past EOF) x 8 path forms incl. read-only file/directory, and the directory of the file must be untouched (no "
+        "sidecar).  quick rotates frame count / content / read form with the seed, thorough takes the cross product.  "
+        "non-trivial = a monitor decided; distinct = distinct descriptors")
 WORKERS = {"quick": 8, "thorough": 16}
 BUDGET = {"quick": 90, "thorough": 600}
 EXHAUSTIVE = {"quick": True, "thorough": True}
-FLOORS = {"quick": {"fo=False.raises": 110, "fo=False.unchanged": 160, "fo=False.audit": 120, "fo=True.loads-new": 130,
-                    "fo=True.size": 130, "fo=True.marker-absent": 30, "read.unchanged": 100, "read.audit": 80, "read.fdflags": 20},
+FLOORS = {"quick": {"fo=False.raises": 2200, "fo=False.unchanged": 4000, "fo=False.audit": 2700, "fo=True.loads-new": 2500,
+                    "fo=True.size": 2500, "fo=True.marker-absent": 900, "read.unchanged": 1000, "read.audit": 750, "read.fdflags": 220,
+                    "read.no-sidecar": 750, "append.keeps-old": 12, "default.documented": 10},
           # no floor on the strace monitors: where ptrace is not permitted they are skipped by design
-          "thorough": {"fo=False.raises": 1100, "fo=False.unchanged": 1800, "fo=True.loads-new": 1400, "fo=True.size": 1400,
-                       "read.unchanged": 1300, "read.audit": 1000, "read.fdflags": 200}}
+          "thorough": {"fo=False.raises": 9000, "fo=False.unchanged": 16000, "fo=True.loads-new": 10000, "fo=True.size": 10000,
+                       "read.unchanged": 8000, "read.audit": 6000, "read.fdflags": 1200, "read.no-sidecar": 6000}}
 ASSUMPTIONS = ["fidelity of what is written/loaded is C01's subject: 'loads to the new content' is judged against the same "
                "content written by the same entry point to a fresh path, plus self-identifying frames (new frames start at "
                "0, old ones at 20)",
                "for multi-frame rst7/ncrst the paths 'saved at' are the numbered files path.N",
                "any exception type counts as 'raises an error'; the type is recorded",
-               "lh5 and gsd are out of scope (optional dependencies / legacy)"]
+               "lh5 and gsd are out of scope (optional dependencies / legacy)",
+               "positional calls use the documented parameter order of the pinned API ((filename, mode, force_overwrite); "
+               "save_hdf5: (filename, mode, force_overwrite); MDCRDTrajectoryFile: (filename, n_atoms, mode, has_box, force_overwrite)) and "
+               "omitted force_overwrite means the pinned default (True; AmberNetCDFRestartFile: False)",
+               "a dangling symlink, a trailing separator after a regular file's name, and a directory where a single-file format is "
+               "written are outside 'a path that already exists' for the raises clause; the paths are still monitored for modification",
+               "as root the permission bits of read-only files/directories do not bind: those forms then only exercise the mode/"
+               "snapshot monitors (recorded in observed.read_only_forms_run_as)"]
 
 # --------------------------------------------------------------------------------------------------------------------
 # the table
@@ -132,6 +160,153 @@ TESTDATA = ["frame0.xtc", "frame0.trr", "frame0.dcd", "frame0.h5", "frame0.nc", 
 DATA = os.path.join(os.environ.get("VERIF_REPO", "/repo"), "tests", "data")
 STRACE_SYSCALLS = "openat,open,creat,unlink,unlinkat,rename,renameat,renameat2,truncate,ftruncate,rmdir,mkdir,mkdirat,link,linkat,symlink,symlinkat,chmod,fchmodat,utimensat"
 N_STRACE = 16
+
+
+# ---- widened input classes (round 5) ------------------------------------------------------------------------------
+# entry "class": the format's file class constructed directly (mdtraj.formats.<Class>(path, 'w', ...))
+CLASSES = {"xtc": "XTCTrajectoryFile", "trr": "TRRTrajectoryFile", "dcd": "DCDTrajectoryFile", "dtr": "DTRTrajectoryFile",
+           "h5": "HDF5TrajectoryFile", "nc": "NetCDFTrajectoryFile", "ncrst": "AmberNetCDFRestartFile", "rst7": "AmberRestartFile",
+           "mdcrd": "MDCRDTrajectoryFile", "lammpstrj": "LAMMPSTrajectoryFile", "xyz": "XYZTrajectoryFile", "gro": "GroTrajectoryFile",
+           "pdb": "PDBTrajectoryFile", "pdbx": "PDBxTrajectoryFile"}
+ENTRIES4 = ENTRIES + ["class"]
+# how force_overwrite reaches the entry point: by keyword (base table), positionally, omitted (the entry point's own
+# default decides which clause applies), as numpy bool / int, together with the saver's other options
+STYLES = [("saver", "pos"), ("saver", "default"), ("save", "default"), ("open", "pos"), ("open", "default"),
+          ("class", "kw"), ("class", "pos"), ("class", "default"),
+          ("save", "npbool"), ("saver", "int"), ("open", "npbool"), ("class", "int"), ("save", "opts")]
+# path forms; the class of a form goes into the mechanism key
+FORMS = {"pathlib": "pathobj", "pathlike": "pathobj", "bytes": "pathobj",
+         "relative": "relpath", "dotslash": "relpath", "reldotdot": "relpath", "dotdot": "relpath", "dotmid": "relpath",
+         "dblslash": "relpath", "trailsep": "relpath",
+         "blank": "name", "unicode": "name", "upper": "name", "multidot": "name", "extupper": "name", "extmixed": "name",
+         "symlink": "link", "symlink-rel": "link", "symlink-dangling": "link", "hardlink": "link",
+         "rofile": "perm", "rodir": "perm"}
+NEW_FORMS = ["pathlib", "pathlike", "bytes", "relative", "dotslash", "reldotdot", "dotdot", "dotmid", "dblslash", "trailsep",
+             "blank", "unicode", "multidot", "extupper", "extmixed", "symlink", "symlink-rel", "symlink-dangling", "hardlink",
+             "rofile", "rodir"]
+# extensions only the format-specific savers / classes understand (Trajectory.save and md.open refuse them by name)
+SAVER_EXTRA = {
+    "pdb.bz2": dict(kind="pdb", saver="save_pdb", bytes="bz2", self_top=True),
+    "xyz.bz2": dict(kind="xyz", saver="save_xyz", bytes="bz2"),
+    "gro.gz": dict(kind="gro", saver="save_gro", bytes="exact", self_top=True),
+}
+ALLEXT.update(SAVER_EXTRA)
+# a valid file of ANOTHER format under this name
+OTHER = {"xtc": "trr", "trr": "xtc", "dcd": "xtc", "h5": "nc", "nc": "h5", "ncrst": "nc", "pdb": "gro", "gro": "pdb",
+         "mdcrd": "xyz", "xyz": "mdcrd", "lammpstrj": "xyz", "rst7": "mdcrd", "pdbx": "pdb"}
+BAD_MODES = ["a", "x", "r+", "wb", "rw", "W", ""]
+READ_ENTRIES_NEW = ["load_fn", "load_fn-opts", "load-frame-kw", "load-topfile", "open-r-fo", "class-r", "open-seek-whence",
+                    "open-offsets", "open-nothing", "open-past-eof"]
+READ_FORMS = ["pathlib", "relative", "dotdot", "symlink", "rofile", "rodir", "unicode", "extupper"]
+TOP_FMTS = ["pdb", "gro", "h5", "pdb.gz"]
+TESTDATA_LOAD = ["adp.mol2", "imatinib.mol2", "no_chains.hoomdxml", "no_ions.hoomdxml", "alanine-dipeptide-explicit.prmtop"]
+_ROOT = hasattr(os, "geteuid") and os.geteuid() == 0
+
+
+def _widened_table(seed, full):
+    """the input classes added in round 5.  quick (full=False): one representative of every (extension, form/style,
+    entry, force_overwrite) with frame count and content class rotating with the seed; thorough: the cross product"""
+    multi, na = 3 + seed % 3, NA_NEW + seed % 4
+    j = seed
+    # (a) how force_overwrite is passed, and the direct class constructors
+    for ext in ALLEXT:
+        m = ALLEXT[ext]
+        for nf in (1, multi):
+            cs = _contents(ext, nf)
+            pick = [cs[0], cs[2]] + (["num-last", "base-only"] if m.get("restart") and nf > 1 else [])
+            for content in (cs if full else pick):
+                for entry, style in STYLES:
+                    if ext in OPEN_EXTRA and entry in ("save", "saver") or ext in SAVER_EXTRA and entry in ("save", "open"):
+                        continue
+                    if style == "opts" and m["kind"] not in ("pdb", "gro", "h5"):
+                        continue
+                    for fo in ((None,) if style == "default" else (False, True)):
+                        yield dict(op="ow", ext=ext, nf=nf, na=na, content=content, entry=entry, fo=fo, style=style)
+    # (a') extensions only the savers/classes know, by keyword
+    for ext in SAVER_EXTRA:
+        for nf in (1, multi):
+            for content in CONTENTS_FILE:
+                for fo in (False, True):
+                    yield dict(op="ow", ext=ext, nf=nf, na=na, content=content, entry="saver", fo=fo)
+    # (b) path forms
+    for ext in ALLEXT:
+        m = ALLEXT[ext]
+        for form in NEW_FORMS:
+            for entry in ENTRIES4:
+                if ext in OPEN_EXTRA and entry in ("save", "saver") or ext in SAVER_EXTRA and entry in ("save", "open"):
+                    continue
+                for fo in (False, True):
+                    j += 1
+                    for nf in ((1, multi) if full else ((1, multi)[j % 2],)):
+                        for c in (("same", "junk") if full else (("same", "junk")[(j // 2) % 2],)):
+                            content = c
+                            if m.get("tree"):
+                                content = {"same": "same", "junk": "junkdir"}[c]
+                                if form in ("hardlink", "rofile"):
+                                    continue
+                            if m.get("restart") and nf > 1 and entry != "open":
+                                content = "num-" + c
+                                if form in ("symlink", "symlink-rel", "symlink-dangling", "hardlink"):
+                                    continue
+                            if form == "symlink-dangling":
+                                content = "none"
+                            yield dict(op="ow", ext=ext, nf=nf, na=na, content=content, entry=entry, fo=fo, form=form)
+    # (c) pre-existing content of another class: a valid file of another format, a directory where a file goes
+    for ext in ALLEXT:
+        if ALLEXT[ext].get("tree"):
+            continue
+        for content in ("otherfmt", "dir"):
+            for nf in (1, multi):
+                for entry in ENTRIES4:
+                    if ext in OPEN_EXTRA and entry in ("save", "saver") or ext in SAVER_EXTRA and entry in ("save", "open"):
+                        continue
+                    for fo in (False, True):
+                        yield dict(op="ow", ext=ext, nf=nf, na=na, content=content, entry=entry, fo=fo)
+    # (c') a symbolic link to a directory where a single-file format is to be written
+    for ext in ALLEXT:
+        if ALLEXT[ext].get("tree"):
+            continue
+        for entry in ENTRIES4:
+            if ext in OPEN_EXTRA and entry in ("save", "saver") or ext in SAVER_EXTRA and entry in ("save", "open"):
+                continue
+            for fo in (False, True):
+                yield dict(op="ow", ext=ext, nf=1, na=na, content="dir", entry=entry, fo=fo, form="symlink")
+    # (d) a mode string that is not a documented write mode must not touch the file
+    for ext in ALLEXT:
+        if ext in SAVER_EXTRA:
+            continue
+        for mode in BAD_MODES:
+            for entry in ("open", "class"):
+                yield dict(op="badmode", ext=ext, mode=mode, entry=entry)
+    # (e) HDF5 append mode: the old frames stay whatever force_overwrite says
+    for entry in ("saver", "class", "open"):
+        for fo in (False, True, None):
+            for nf in (1, multi):
+                yield dict(op="append", ext="h5", entry=entry, fo=fo, nf=nf, na=na)
+    # (f) the existing file was created by the same process a moment ago / a read handle on it is still open
+    for ext in ALLEXT:
+        for entry in ENTRIES4:
+            if ext in OPEN_EXTRA and entry in ("save", "saver") or ext in SAVER_EXTRA and entry in ("save", "open"):
+                continue
+            for variant in ("created-now", "read-handle-open"):
+                for nf in ((1, multi) if full else ((1, multi)[(j + len(ext)) % 2],)):
+                    yield dict(op="seq", ext=ext, entry=entry, variant=variant, nf=nf, na=na)
+    # (g) documented default of force_overwrite against the signature, for every entry point
+    yield dict(op="defaults")
+    # (h) read-only clause: more entry points, path forms, read-only files/directories, the topology file of load(top=)
+    k = seed
+    for fmt in READ_FMTS:
+        for entry in READ_ENTRIES_NEW:
+            k += 1
+            yield dict(op="read", fmt=fmt, entry=entry, src="mdtraj", topfmt=TOP_FMTS[k % len(TOP_FMTS)])
+        for entry in READ_ENTRIES + READ_ENTRIES_NEW:
+            for form in (READ_FORMS if full else (None,)):
+                k += 1
+                yield dict(op="read", fmt=fmt, entry=entry, src="mdtraj", form=form or READ_FORMS[k % len(READ_FORMS)],
+                           topfmt=TOP_FMTS[k % len(TOP_FMTS)])
+    for name in TESTDATA_LOAD:
+        for entry in ("load", "load_fn", "load_frame-first", "iterload-2-stride2", "load_topology"):
+            yield dict(op="read", fmt=name, entry=entry, src="testdata")
 
 
 def _contents(ext, nf):
@@ -242,11 +417,22 @@ def _strace_table():
             for content in (cs[0], cs[2]):
                 for entry in ENTRIES:
                     yield dict(op="ow", ext=ext, nf=nf, content=content, entry=entry, fo=False)
+        # round 5: the class constructor, positional / omitted force_overwrite, path objects and links (native opens
+        # are invisible to the audit hook)
+        yield dict(op="ow", ext=ext, nf=1, content=_contents(ext, 1)[0], entry="class", fo=False)
+        yield dict(op="ow", ext=ext, nf=1, content=_contents(ext, 1)[2], entry="class", fo=False, style="pos")
+        if EXT[ext]["kind"] == "ncrst":
+            yield dict(op="ow", ext=ext, nf=1, content="same", entry="class", fo=None, style="default")
+        for form in ("pathlib", "dblslash", "dotdot") + (() if EXT[ext].get("tree") else ("symlink", "hardlink", "rofile")):
+            yield dict(op="ow", ext=ext, nf=1, content="same", entry="saver", fo=False, form=form)
     for ext in OPEN_EXTRA:
         yield dict(op="ow", ext=ext, nf=1, content="same", entry="open", fo=False)
     for fmt in READ_FMTS:
         for entry in ("load", "load_frame-last", "iterload-2-stride2", "load_topology", "open-cursor", "open-noclose"):
             yield dict(op="read", fmt=fmt, entry=entry, src="mdtraj")
+        for entry, form in (("load_fn", "plain"), ("class-r", "plain"), ("open-r-fo", "symlink"), ("open-seek-whence", "rofile"),
+                            ("load-topfile", "dotdot")):
+            yield dict(op="read", fmt=fmt, entry=entry, src="mdtraj", form=form)
     for name in TOP_FILES:
         yield dict(op="read", fmt=name, entry="load_topology", src="testdata")
 
@@ -254,6 +440,10 @@ def _strace_table():
 def gen_cases(tier, seed):
     i = 0
     for c in _base_table(seed):
+        c.update(i=i, seed=seed)
+        i += 1
+        yield c
+    for c in _widened_table(seed, tier == "thorough"):
         c.update(i=i, seed=seed)
         i += 1
         yield c
@@ -476,18 +666,120 @@ def _open_write(f, kind, t):
         raise AssertionError(kind)
 
 
-def _produce(path, ext, t, entry, fo):
-    """run one entry point; returns the opened-but-unwritten handle only for (open, fo=False) that did not raise"""
+class _PL:
+    """an os.PathLike that is not a pathlib.Path"""
+
+    def __init__(self, p):
+        self._p = p
+
+    def __fspath__(self):
+        return self._p
+
+    def __str__(self):  # deliberately NOT the path (but inside the case directory): code that uses str(obj) instead of
+        return os.path.join(os.path.dirname(self._p), "STR-OF-PATHLIKE-" + os.path.basename(self._p))  # os.fspath(obj) shows
+
+
+def _cls(kind):
+    import mdtraj.formats as F
+    return getattr(F, CLASSES[kind])
+
+
+def _sig_params(fn):
+    """[(name, default)] of the parameters after the file name, from the signature or (Cython) the docstring's first line"""
+    import inspect
+    try:
+        ps = list(inspect.signature(fn).parameters.values())
+        ps = [q for q in ps if q.name != "self" and q.kind in (q.POSITIONAL_ONLY, q.POSITIONAL_OR_KEYWORD)]
+        return [(q.name, q.default) for q in ps[1:]]
+    except (TypeError, ValueError):
+        first = (fn.__doc__ or "").strip().splitlines()[0]
+        mm = re.match(r"\w+\((.*)\)\s*$", first)
+        out = []
+        for part in (mm.group(1).split(",")[1:] if mm else []):
+            part = part.strip()
+            if part.startswith("*"):
+                continue
+            nm, _, dv = part.partition("=")
+            out.append((nm.strip(), {"True": True, "False": False, "'r'": "r", "None": None}.get(dv.strip(), dv.strip())))
+        return out
+
+
+def _positional(fn, fo, mode=None):
+    """positional arguments after the file name up to and including force_overwrite, in the DOCUMENTED order of the
+    pinned API (deliberately not read from the live signature: a reordered or keyword-only parameter must show)"""
+    name = getattr(fn, "__name__", "")
+    if name == "save_hdf5":
+        return ["w", fo]
+    if name.startswith("save_"):
+        return [fo]
+    if name == "MDCRDTrajectoryFile":
+        return [None, mode, "detect", fo]
+    return [mode, fo]  # md.open and every other file class: (filename, mode, force_overwrite)
+
+
+def _default_fo(ext, entry):
+    """the default of force_overwrite in the pinned API (signatures at the pinned commit; every saver docstring says
+    default=True): True everywhere except the AmberNetCDFRestartFile constructor.  Pinned, not read from the live
+    signature, so that a changed default shows as a refused / unrequested overwrite in the style='default' cases; what
+    the live signature and the docstrings say is compared by the 'defaults' case"""
+    return not (entry == "class" and ALLEXT[ext]["kind"] == "ncrst")
+
+
+def _documented_default(fn):
+    mm = re.search(r"force_overwrite\s*:\s*bool\s*,\s*(?:optional\s*,\s*)?default\s*=\s*(True|False)", fn.__doc__ or "")
+    return None if not mm else mm.group(1) == "True"
+
+
+def _fo_value(fo, style):
+    if style == "npbool":
+        return np.bool_(fo)
+    if style == "int":
+        return int(fo)
+    return fo
+
+
+def _produce(path, ext, t, entry, fo, style="kw", write=None, mode="w"):
+    """run one entry point.  style: how force_overwrite is handed over (kw/pos/default/npbool/int/opts); for the handle
+    entries (open, class) frames are written unless the effective force_overwrite is false (write=True forces it)"""
     import mdtraj as md
     m = ALLEXT[ext]
+    eff = _default_fo(ext, entry) if style == "default" else fo
+    fov = _fo_value(fo, style)
     if entry == "save":
-        t.save(path, force_overwrite=fo)
+        if style == "default":
+            t.save(path)
+        elif style == "opts":
+            opts = {"pdb": dict(bfactors=np.full(t.n_atoms, 1.5), ter=False, header=False), "gro": dict(precision=4),
+                    "h5": dict(mode="w")}[m["kind"]]
+            t.save(path, force_overwrite=fov, **opts)
+        else:
+            t.save(path, force_overwrite=fov)
     elif entry == "saver":
-        getattr(t, m["saver"])(path, force_overwrite=fo)
+        fn = getattr(t, m["saver"])
+        if style == "default":
+            fn(path)
+        elif style == "pos":
+            fn(path, *_positional(getattr(md.Trajectory, m["saver"]), fov, mode="w"))
+        else:
+            fn(path, force_overwrite=fov)
     else:
-        f = md.open(path, "w", force_overwrite=fo)
+        if entry == "open":
+            if style == "default":
+                f = md.open(path, mode)
+            elif style == "pos":
+                f = md.open(path, mode, fov)
+            else:
+                f = md.open(path, mode, force_overwrite=fov)
+        else:
+            cls = _cls(m["kind"])
+            if style == "default":
+                f = cls(path, mode=mode)
+            elif style == "pos":
+                f = cls(path, *_positional(cls, fov, mode=mode))
+            else:
+                f = cls(path, mode=mode, force_overwrite=fov)
         try:
-            if fo is not False:
+            if bool(eff) if write is None else write:
                 _open_write(f, m["kind"], t)
         finally:
             f.close()
@@ -505,9 +797,15 @@ def _numbered(path, k, n):
     return "%s.%0*d" % (path, len(str(n)), k)
 
 
-def _load(p, ext, top):
+def _load(p, ext, top, explicit=False):
     import mdtraj as md
     m = ALLEXT[ext]
+    if (explicit or ext in SAVER_EXTRA) and m["kind"] not in ("rst7", "ncrst"):
+        # the name carries an extension md.load does not map (upper case, .bz2): the format's own loader
+        from mdtraj.formats.registry import FormatRegistry
+        base = {"pdb.bz2": "pdb", "xyz.bz2": "xyz", "gro.gz": "gro"}.get(ext, ext)
+        fn = FormatRegistry.loaders["." + base]
+        return fn(p) if m.get("self_top") else fn(p, top=top)
     if m["kind"] == "rst7":
         return md.load_restrt(p, top=top)
     if m["kind"] == "ncrst":
@@ -526,6 +824,12 @@ def _bytes(p, mode):
     if mode == "gz":
         try:
             return gzip.decompress(b)
+        except Exception:
+            return b
+    if mode == "bz2":
+        import bz2
+        try:
+            return bz2.decompress(b)
         except Exception:
             return b
     return b
@@ -560,19 +864,53 @@ def _old_traj(case, nf_new, na_new, single):
     return files.ident_traj(nold, naold, cell="ortho", f0=F0_OLD)
 
 
+def _produce_at(d, path, ext, told, wentry):
+    """write `told` through a standard-named scratch file and move the result to `path` (whose name the high-level
+    entry points may not recognise: upper-case extensions); multi-frame restart output is moved file by file"""
+    tmp = os.path.join(d, "pre-src." + ext)
+    _produce(tmp, ext, told, wentry, True)
+    outs = _outputs(tmp, ext, told.n_frames, wentry)
+    if outs == [tmp]:
+        os.rename(tmp, path)
+        return [path]
+    res = []
+    for k, o in enumerate(outs, 1):
+        q = _numbered(path, k, told.n_frames)
+        os.rename(o, q)
+        res.append(q)
+    return res
+
+
 def _make_preexisting(case, d, path, ext, nf, na):
     """create the pre-existing content; returns (list of pre-existing top-level paths, marker or None)"""
     m = ALLEXT[ext]
     content = case["content"]
     marker = _marker(case)
-    wentry = "open" if ext in OPEN_EXTRA else "save"
+    wentry = "open" if ext in OPEN_EXTRA else "saver" if ext in SAVER_EXTRA else "save"
     single = bool(m.get("restart") or m.get("single"))
     pre = []
+    if content == "none":
+        return [], None
+    if content == "otherfmt":
+        # a valid, longer file of another format under this name (written by that format's own saver)
+        other = OTHER[m["kind"]]
+        told = files.ident_traj(1 if ALLEXT[other].get("restart") else 12, na + 3, cell="ortho", f0=F0_OLD)
+        tmp = os.path.join(d, "other-src." + other)
+        _produce(tmp, other, told, "save", True)
+        os.rename(tmp, path)
+        return [path], None
+    if content == "dir":
+        os.mkdir(path)
+        os.mkdir(os.path.join(path, "sub"))
+        for rel in ("keep.txt", "sub/keep2.txt"):
+            with open(os.path.join(path, rel), "wb") as f:
+                f.write(_junk(marker)[:2048])
+        return [path], marker
     if content in ("same", "longer", "same-bytes"):
         told = _old_traj(case, 1 if single else nf, na, single)
         if single and told.n_frames > 1:
             told = told[0]
-        _produce(path, ext, told, wentry, True)
+        _produce_at(d, path, ext, told, wentry)
         return [path], None
     if content in ("junk", "junk-short", "junkfile"):
         with open(path, "wb") as f:
@@ -594,7 +932,7 @@ def _make_preexisting(case, d, path, ext, nf, na):
     # numbered layouts (restart formats)
     if content == "base+num":
         told = _old_traj(case, max(nf, 3), na, False)
-        _produce(path, ext, told[0], "save", True)
+        _produce_at(d, path, ext, told[0], "save")
         pre.append(path)
         for k in range(1, told.n_frames + 1):
             q = _numbered(path, k, told.n_frames)
@@ -604,14 +942,13 @@ def _make_preexisting(case, d, path, ext, nf, na):
         return pre, None
     if content == "base-only":
         told = _old_traj(case, nf, na, False)
-        _produce(path, ext, told[0], "save", True)
+        _produce_at(d, path, ext, told[0], "save")
         return [path], None
     if content in ("num-same", "num-longer", "num-width2"):
         told = _old_traj(case, nf, na, False)
         if told.n_frames == 1:
             told = files.ident_traj(2, told.n_atoms, cell="ortho", f0=F0_OLD)
-        _produce(path, ext, told, "save", True)
-        return [_numbered(path, k, told.n_frames) for k in range(1, told.n_frames + 1)], None
+        return _produce_at(d, path, ext, told, "save"), None
     if content in ("num-junk", "num-junk-short"):
         for k in range(1, nf + 1):
             q = _numbered(path, k, nf)
@@ -638,8 +975,12 @@ def _make_preexisting(case, d, path, ext, nf, na):
 
 
 def _layout(ext, content):
+    if content == "none":
+        return "dangling-symlink"
     if ALLEXT[ext].get("tree"):
         return "regular-file-at-path" if content == "junkfile" else "directory"
+    if content == "dir":
+        return "directory-at-file-path"
     if content.startswith("num-"):
         return "numbered-files"
     if content == "base+num":
@@ -666,11 +1007,20 @@ def run_case(case, ctx):
     try:
         if case["op"] == "ow":
             _run_overwrite(case, ctx, d)
+        elif case["op"] == "badmode":
+            _run_badmode(case, ctx, d)
+        elif case["op"] == "append":
+            _run_append(case, ctx, d)
+        elif case["op"] == "seq":
+            _run_seq(case, ctx, d)
+        elif case["op"] == "defaults":
+            _run_defaults(case, ctx)
         else:
             _run_read(case, ctx, d)
     finally:
         _AUD["armed"] = False
         os.chdir(cwd)
+        _unlock(d)
         shutil.rmtree(d, ignore_errors=True)
 
 
@@ -698,8 +1048,75 @@ def _raised_in_file_class(exc):
     return bool(inner) and "mdtraj/formats/" in inner
 
 
+def _form_name(form, ext):
+    if form == "extupper":
+        return "traj." + ext.upper()
+    if form == "extmixed":
+        return "traj." + ".".join(q.capitalize() if j == 0 else q.upper() for j, q in enumerate(ext.split(".")))
+    return {"blank": "my traj (1) file." + ext, "unicode": "tr\u00e4j-\u03b2\u03b3." + ext, "upper": "Run_B-Traj." + ext,
+            "multidot": "run.2024-01.v1.2.traj." + ext}.get(form, "traj." + ext)
+
+
+def _call_path(form, dirpath, name):
+    """the object handed to mdtraj for the canonical absolute path dirpath/name (may change the cwd; helper directories
+    are created idempotently)"""
+    path = os.path.join(dirpath, name)
+    if form == "relative":
+        os.chdir(dirpath)
+        return name
+    if form == "dotslash":
+        os.chdir(dirpath)
+        return "." + os.sep + name
+    if form == "reldotdot":
+        os.makedirs(os.path.join(dirpath, "cwd-sub"), exist_ok=True)
+        os.chdir(os.path.join(dirpath, "cwd-sub"))
+        return os.pardir + os.sep + name
+    if form == "dotdot":
+        os.makedirs(os.path.join(dirpath, "sub-x"), exist_ok=True)
+        return os.sep.join([dirpath, "sub-x", os.pardir, name])
+    if form == "dotmid":
+        return os.sep.join([dirpath, os.curdir, name])
+    if form == "dblslash":
+        return dirpath + os.sep + os.sep + name
+    if form == "trailsep":
+        return path + os.sep
+    if form == "pathlib":
+        return pathlib.Path(path)
+    if form == "pathlike":
+        return _PL(path)
+    if form == "bytes":
+        return os.fsencode(path)
+    return path
+
+
+def _with_form(form, dirpath, name, fn):
+    cwd = os.getcwd()
+    try:
+        return fn(_call_path(form, dirpath, name))
+    finally:
+        os.chdir(cwd)
+
+
+def _chmod_tree(paths, fmode, dmode):
+    for p in paths:
+        for q in reversed(_walk(p)):
+            if not os.path.islink(q):
+                os.chmod(q, dmode if os.path.isdir(q) else fmode)
+
+
+def _unlock(d):
+    """make everything under d writable again (read-only forms), so that the case directory can be removed"""
+    try:
+        for dd, ds, fs in os.walk(d):
+            os.chmod(dd, 0o755)
+    except OSError:
+        pass
+
+
 def _run_overwrite(case, ctx, d):
-    ext, nf, content, entry, fo = case["ext"], case["nf"], case["content"], case["entry"], case["fo"]
+    ext, nf, content, entry = case["ext"], case["nf"], case["content"], case["entry"]
+    style = case.get("style", "kw")
+    fo_arg = case["fo"]
     m = ALLEXT[ext]
     na = case.get("na", NA_NEW)
     form = case.get("form", "plain")
@@ -707,43 +1124,86 @@ def _run_overwrite(case, ctx, d):
     ctx.observe("extension", ext)
     ctx.observe("entry", entry)
     ctx.observe("content", content)
-    ctx.observe("force_overwrite", fo)
+    if style != "kw":
+        ctx.observe("force_overwrite_style", f"{entry}:{style}")
     if form != "plain":
         ctx.observe("path_form", form)
     single = bool(m.get("restart") or m.get("single"))
-    if entry == "open" and single and nf > 1:
+    if entry in ("open", "class") and single and nf > 1:
         ctx.skip("table", "a restart file object holds exactly one frame: (md.open, multi-frame) does not exist for rst7/ncrst/inpcrd/restrt")
         return
     if content == "num-mid" and nf < 3 or content == "num-two" and nf < 2:
         ctx.skip("table", "layout needs more frames")
         return
+    fo = fo_arg
+    if style == "default":
+        # the entry point's own default decides which clause of the property the call falls under
+        try:
+            fo = _default_fo(ext, entry)
+        except Exception as e:
+            fo = None
+            ctx.note(repr(e))
+        if fo not in (True, False):
+            ctx.skip("table", f"{ext}/{entry}: the default of force_overwrite cannot be read from the signature")
+            return
+        ctx.observe("pinned_default_force_overwrite", f"{entry}:{ALLEXT[ext]['kind']}={fo}")
+    ctx.observe("force_overwrite", fo)
+    fo_label = f"default({fo})" if style == "default" else str(fo)
     tnew = files.ident_traj(nf, na, cell="ortho", f0=0)
-    name = {"blank": "my traj (1) file." + ext, "unicode": "träj-βγ." + ext, "upper": "Run_B-Traj." + ext}.get(form, "traj." + ext)
-    path = os.path.join(d, name)
+    name = _form_name(form, ext)
+    base = d
+    if form == "rodir":
+        base = os.path.join(d, "ro")
+        os.mkdir(base)
+    path = os.path.join(base, name)
     real = path
-    if form in ("symlink", "hardlink"):
-        real = os.path.join(d, "target." + ext)
+    if form in ("symlink", "symlink-rel", "symlink-dangling", "hardlink"):
+        real = os.path.join(base, "target." + ext)
     try:
         pre, marker = _make_preexisting(case, d, real, ext, nf, na)
     except Exception as e:
         ctx.skip("setup", f"pre-existing content could not be produced for {ext}/{content}: {type(e).__name__}")
         return
-    if form == "symlink":
+    if form in ("symlink", "symlink-dangling"):
         os.symlink(real, path)
+        pre = pre + [path]
+    elif form == "symlink-rel":
+        os.symlink(os.path.basename(real), path)
         pre = pre + [path]
     elif form == "hardlink":
         os.link(real, path)
         pre = pre + [path]
-    call_path = path
-    if form == "relative":
-        os.chdir(d)
-        call_path = name
+    explicit_load = form in ("extupper", "extmixed")
+    _with_form(form, base, name, lambda obj: None)  # helper directories of the form exist before the listing is taken
     outs = _outputs(path, ext, nf, entry)
     pre_set = set(pre)
     hit = [o for o in outs if o in pre_set]
     lay = _layout(ext, content)
-    tag = f"{ext}:{m['saver'] if entry == 'saver' else entry}:force_overwrite={fo}:{lay}"
-    what = f"{ext} {entry}(force_overwrite={fo}), {nf} frame(s) x {na} atoms over pre-existing '{content}' ({len(pre)} path(s))"
+    if m.get("tree") and form in ("symlink", "symlink-rel"):
+        lay = "symlink-to-directory"
+    not_the_file = form == "trailsep" and not m.get("tree")
+    if form != "plain":
+        lay += f"[{FORMS[form]}]"
+    ename = (m["saver"] if entry == "saver" else entry) + ("" if style == "kw" else f"[{style}]")
+    tag = f"{ext}:{ename}:force_overwrite={fo_label}:{lay}"
+    what = (f"{ext} {entry}(force_overwrite={fo_label}{'' if style in ('kw', 'default') else ' passed as ' + style}), {nf} frame(s) x {na} atoms "
+            f"over pre-existing '{content}' ({len(pre)} path(s)){'' if form == 'plain' else ', path form ' + form}")
+
+    def call(dirpath, fo_):
+        return _with_form(form, dirpath, name, lambda obj: _produce(obj, ext, tnew, entry, fo_, style))
+
+    def lock():
+        if form == "rofile":
+            _chmod_tree(pre, 0o444, 0o555)
+        elif form == "rodir":
+            os.chmod(base, 0o555)
+
+    def unlock():
+        if form == "rodir":
+            os.chmod(base, 0o755)
+
+    if form in ("rofile", "rodir"):
+        ctx.observe("read_only_forms_run_as", "root (permission bits do not bind)" if _ROOT else "unprivileged user")
 
     if fo is False:
         # control: the same call on a fresh sibling path must succeed, otherwise an error cannot be attributed to the
@@ -751,22 +1211,29 @@ def _run_overwrite(case, ctx, d):
         os.mkdir(os.path.join(d, "ctl"))
         control = None
         try:
-            _produce(os.path.join(d, "ctl", name), ext, tnew, entry, False)
+            call(os.path.join(d, "ctl"), fo_arg)
         except Exception as e:
             control = e
+        misplaced = control is None and entry in ("save", "saver") and not all(
+            os.path.lexists(r) for r in _outputs(os.path.join(d, "ctl", name), ext, nf, entry))
+        lock()
         _age(pre)
         before = _snapshot(pre)
-        listing0 = sorted(os.listdir(d))
+        listing0 = sorted(os.listdir(base))
         _arm(d, pre, idx)
         raised = None
         try:
-            _produce(call_path, ext, tnew, entry, False)
+            call(base, fo_arg)
         except Exception as e:
             raised = e
         events = _disarm(idx)
-        created = sorted(set(os.listdir(d)) - set(listing0))
+        unlock()
+        created = sorted(set(os.listdir(base)) - set(listing0))
         changes = _diff(before)
         bad = _forbidden(events, pre)
+        if form == "symlink-dangling":
+            # opening the link for writing creates its target; only operations on the link itself (remove, rename) count
+            bad = [b for b in bad if b[0] != "open-write"]
         if changes:
             fields = sorted({f for _, f in changes})
             ctx.violation("fo=False.unchanged", f"{tag}:modified",
@@ -774,19 +1241,35 @@ def _run_overwrite(case, ctx, d):
                           f"{'raised ' + type(raised).__name__ if raised else 'did not raise'}", events=[list(e) for e in events[:12]])
         else:
             ctx.ok("fo=False.unchanged", len(before))
-        if bad:
+        if not_the_file and bad and all(b[0] == "open-write" for b in bad):
+            ctx.skip("fo=False.audit", "a trailing separator after a regular file's name: the open-for-writing the audit hook sees names 'file/' and is "
+                                       "refused by the operating system (ENOTDIR) without touching the file (snapshot monitor)")
+        elif bad:
             ctx.violation("fo=False.audit", f"{tag}:audit[{'+'.join(sorted({e for e, _, _ in bad}))}]",
                           f"{what}: write-ish operation on a pre-existing path seen by the audit hook: {bad[:4]}")
         else:
             ctx.ok("fo=False.audit")
         ctx.observe("audit_events_fo=False", len(events))
-        if not hit:
+        if not_the_file:
+            ctx.skip("fo=False.raises", "a trailing separator after a regular file's name does not name the file (os.path.exists is false, any open fails with "
+                                        "ENOTDIR): outside 'a path that already exists'; the file is monitored for modification")
+            ctx.observe("fo=False_trailing_separator_call", "raised " + type(raised).__name__ if raised else "did not raise")
+        elif misplaced:
+            ctx.skip("fo=False.raises", f"{ext}/{entry}: on a fresh path the call returns but its output is not at os.fspath(path) (path form {form}): what "
+                                        "pre-exists is not a path this call writes; where a save lands is C01's subject")
+            ctx.observe("fresh_path_output_not_at_fspath", f"{m['kind']}:{entry}:{form}")
+        elif form == "symlink-dangling":
+            ctx.skip("fo=False.raises", "a dangling symbolic link at the path: no existing FILE can be modified (os.path.exists is false); whether the "
+                                        "link counts as 'a path that already exists' is not said - the link itself is monitored")
+            ctx.observe("fo=False_dangling_symlink_call", "raised" if raised else "did not raise (wrote through the link)")
+        elif not hit:
             ctx.skip("fo=False.raises", f"{lay}: no path the call writes pre-exists (multi-frame restart output goes to path.N) - outside 'a path that already exists'")
             ctx.observe("fo=False_no_output_preexists_call", "raised" if raised else "did not raise")
         elif raised is None:
             ctx.violation("fo=False.raises", f"{tag}:no-error", f"{what}: the call returned without raising; created {created}")
         elif control is not None:
             ctx.skip("fo=False.raises", f"{ext}: the same call fails on a fresh path too ({type(control).__name__}): the error is not attributable to the existing file")
+            ctx.observe("refused_on_fresh_path_too", f"{form}:{entry}:{type(control).__name__}")
         else:
             ctx.ok("fo=False.raises")
             ctx.observe("error_type", type(raised).__name__)
@@ -802,21 +1285,43 @@ def _run_overwrite(case, ctx, d):
     os.mkdir(os.path.dirname(ref1))
     os.mkdir(os.path.dirname(ref2))
     try:
-        _produce(ref1, ext, tnew, entry, True)
+        call(os.path.dirname(ref1), fo_arg)
     except Exception as e:
         ctx.skip("fo=True", f"{ext}/{entry}: the new content cannot be written even to a fresh path ({type(e).__name__}): outside the domain")
+        ctx.observe("refused_on_fresh_path_too", f"{form}:{entry}:{type(e).__name__}")
         return
+    if not all(os.path.lexists(r) for r in _outputs(ref1, ext, nf, entry)):
+        ctx.skip("fo=True", f"{ext}/{entry}: on a fresh path the call returns but the output is not at os.fspath(path) (path form {form}): where a "
+                            "save lands is C01's subject, outside the domain")
+        ctx.observe("fresh_path_output_not_at_fspath", f"{m['kind']}:{entry}:{form}")
+        return
+    lock()
     _age(pre)
     before = _snapshot(pre)
     _arm(d, pre, idx)
     raised = None
     try:
-        _produce(call_path, ext, tnew, entry, True)
+        call(base, fo_arg)
     except Exception as e:
         raised = e
     events = _disarm(idx)
+    unlock()
     how = sorted({e for e, p, _ in _forbidden(events, pre)})
     ctx.observe("replace_method_python_level", "+".join(how) if how else "native-only")
+    if raised is not None and isinstance(raised, PermissionError) and form in ("rofile", "rodir") and not _ROOT:
+        ctx.skip("fo=True", "the operating system refuses to replace a read-only file / write into a read-only directory: not mdtraj's decision")
+        if _diff(before):
+            ctx.violation("fo=True.no-error", f"{tag}:raises-and-modifies", f"{what}: raised PermissionError after modifying the old content")
+        return
+    if raised is not None and content == "dir":
+        # a directory where a file is to be written is outside the quantifier (directory: dtr only); it must not be half-destroyed
+        # overwriting WAS requested, so nothing the call does to the directory contradicts the property; what happened is recorded
+        ch = _diff(before)
+        ctx.skip("fo=True", "a directory (or a link to one) at the path of a single-file format, overwriting requested: the call raised; outside the "
+                            "quantifier (directory: dtr only)")
+        ctx.observe("fo=True_directory_at_file_path", f"{m['kind']}:{form}:raised {type(raised).__name__}, " +
+                    ("left intact" if not ch else "changed " + "+".join(sorted({os.path.basename(q) + ":" + f for q, f in ch}))[:80]))
+        return
     if raised is not None:
         unchanged = not _diff(before)
         if _raised_in_file_class(raised):
@@ -829,7 +1334,7 @@ def _run_overwrite(case, ctx, d):
             ctx.violation("fo=True.no-error", f"{tag}:raises-and-modifies", f"{what}: raised {type(raised).__name__} after modifying the old content")
         return
     ctx.ok("fo=True.no-error")
-    _produce(ref2, ext, tnew, entry, True)
+    call(os.path.dirname(ref2), fo_arg)
     refouts1 = _outputs(ref1, ext, nf, entry)
     refouts2 = _outputs(ref2, ext, nf, entry)
     bmode = m["bytes"]
@@ -841,13 +1346,13 @@ def _run_overwrite(case, ctx, d):
             continue
         # content
         try:
-            exp = _load(r1, ext, top)
+            exp = _load(r1, ext, top, explicit_load)
         except Exception as e:
             ctx.skip("fo=True.loads-new", f"{ext}: the fresh reference cannot be loaded ({type(e).__name__}) - C01's subject")
             exp = None
         if exp is not None:
             try:
-                got = _load(o, ext, top)
+                got = _load(o, ext, top, explicit_load)
             except Exception as e:
                 ctx.violation("fo=True.loads-new", f"{tag}:result-unloadable", f"{what}: result cannot be loaded ({type(e).__name__}: {str(e)[:120]}) while the same content on a fresh path can")
                 got = None
@@ -886,7 +1391,7 @@ def _run_overwrite(case, ctx, d):
         b_o, b_1, b_2 = (_masked(_bytes(x, bmode), bmode) for x in (o, r1, r2))
         if len(b_o) != len(b_1) and len(b_o) != len(b_2):
             ctx.violation("fo=True.size", f"{tag}:size-differs-from-fresh-file",
-                          f"{what}: {os.path.basename(o)} has {len(b_o)} bytes{' (decompressed)' if bmode == 'gz' else ''}, the same content on a fresh path {len(b_1)}")
+                          f"{what}: {os.path.basename(o)} has {len(b_o)} bytes{' (decompressed)' if bmode in ('gz', 'bz2') else ''}, the same content on a fresh path {len(b_1)}")
         else:
             ctx.ok("fo=True.size")
         if bmode == "content":
@@ -900,15 +1405,223 @@ def _run_overwrite(case, ctx, d):
             ctx.ok("fo=True.bytes")
         # marker
         if marker is not None and o in pre_set or marker is not None and m.get("tree"):
-            if marker in _bytes(o, "gz" if bmode == "gz" else "raw"):
+            if marker in _bytes(o, bmode if bmode in ("gz", "bz2") else "raw"):
                 ctx.violation("fo=True.marker-absent", f"{tag}:old-bytes-survive", f"{what}: the marker of the old content is still in {os.path.basename(o)}")
             else:
                 ctx.ok("fo=True.marker-absent")
+    if form in ("symlink", "symlink-rel", "hardlink") and os.path.lexists(real) and not m.get("tree"):
+        # replacing by unlink+create leaves the other name with the old content, writing through replaces both: either way
+        # the path that was saved to holds the new content only (checked above); recorded, not judged
+        try:
+            kept = _bytes(real, "raw") != _bytes(path, "raw")
+        except OSError:
+            kept = None
+        ctx.observe("fo=True_other_name_of_linked_file", f"{m['kind']}:{form}:{'keeps old content' if kept else 'replaced too'}")
+        return
     stale = [p for p in pre if p not in set(outs) and os.path.lexists(p) and not (m.get("tree"))]
     if stale:
         ctx.skip("fo=True.stale-numbered", "pre-existing numbered/base files that are not outputs of the new save survive; the statement does not say "
                                            "whether the numbered set is one unit", len(stale))
         ctx.observe("stale_numbered_survivors", lay, len(stale))
+
+
+# --------------------------------------------------------------------------------------------------------------------
+# further write-side classes: undocumented mode strings, HDF5 append, same-process sequences, documented defaults
+def _setup_same(case, d, ext, nf, na):
+    path = os.path.join(d, "traj." + ext)
+    c = dict(case, content="same")
+    pre, _ = _make_preexisting(c, d, path, ext, nf, na)
+    return path, pre
+
+
+def _run_badmode(case, ctx, d):
+    """a mode string that is neither 'r' nor a documented write mode, force_overwrite=False: whatever the entry point
+    answers, the existing file stays as it is"""
+    import mdtraj as md
+    ext, mode, entry = case["ext"], case["mode"], case["entry"]
+    m = ALLEXT[ext]
+    idx = case.get("i", 0)
+    ctx.observe("extension", ext)
+    ctx.observe("bad_mode", repr(mode))
+    if m["kind"] == "h5" and mode == "a":
+        ctx.skip("table", "mode 'a' is a documented mode of the HDF5 file class (append cases)")
+        return
+    try:
+        path, pre = _setup_same(case, d, ext, 1, NA_NEW)
+    except Exception as e:
+        ctx.skip("setup", f"pre-existing content could not be produced for {ext}: {type(e).__name__}")
+        return
+    _age(pre)
+    before = _snapshot(pre)
+    _arm(d, pre, idx)
+    raised = None
+    try:
+        if entry == "open":
+            f = md.open(path, mode, force_overwrite=False)
+        else:
+            f = _cls(m["kind"])(path, mode=mode, force_overwrite=False)
+        f.close()
+        del f
+    except Exception as e:
+        raised = e
+    events = _disarm(idx)
+    tag = f"{ext}:{entry}:mode={mode!r}:force_overwrite=False"
+    changes = _diff(before)
+    if changes:
+        ctx.violation("fo=False.unchanged", f"{tag}:modified", f"{ext} {entry}(mode={mode!r}, force_overwrite=False) on an existing file changed it "
+                      f"[{'+'.join(sorted({f for _, f in changes}))}]; call {'raised ' + type(raised).__name__ if raised else 'did not raise'}")
+    else:
+        ctx.ok("fo=False.unchanged", len(before))
+    bad = _forbidden(events, pre)
+    if bad:
+        ctx.violation("fo=False.audit", f"{tag}:audit[{'+'.join(sorted({e for e, _, _ in bad}))}]",
+                      f"{ext} {entry}(mode={mode!r}, force_overwrite=False): write-ish operation on the existing file: {bad[:4]}")
+    else:
+        ctx.ok("fo=False.audit")
+    ctx.observe("bad_mode_outcome", "returned a handle" if raised is None else type(raised).__name__)
+
+
+def _run_append(case, ctx, d):
+    """HDF5 mode 'a' ("'a' will append to an existing file"): the old frames are kept whatever force_overwrite says"""
+    import mdtraj as md
+    ext, entry, fo, nf, na = case["ext"], case["entry"], case["fo"], case["nf"], case.get("na", NA_NEW)
+    ctx.observe("extension", ext)
+    ctx.observe("append_entry", f"{entry}:force_overwrite={'default' if fo is None else fo}")
+    told = files.ident_traj(4, na, cell="ortho", f0=F0_OLD)
+    tnew = files.ident_traj(nf, na, cell="ortho", f0=0)
+    path = os.path.join(d, "traj." + ext)
+    try:
+        told.save(path)
+    except Exception as e:
+        ctx.skip("setup", f"pre-existing content could not be produced for {ext}: {type(e).__name__}")
+        return
+    kw = {} if fo is None else {"force_overwrite": fo}
+    tag = f"{ext}:{'save_hdf5' if entry == 'saver' else entry}:mode='a':force_overwrite={'default' if fo is None else fo}"
+    try:
+        if entry == "saver":
+            tnew.save_hdf5(path, mode="a", **kw)
+        else:
+            f = md.open(path, "a", **kw) if entry == "open" else _cls("h5")(path, "a", **kw)
+            try:
+                f.write(coordinates=tnew.xyz, time=tnew.time, cell_lengths=tnew.unitcell_lengths, cell_angles=tnew.unitcell_angles)
+            finally:
+                f.close()
+    except Exception as e:
+        ctx.skip("append.keeps-old", f"the append call raised {type(e).__name__} (refusal; the file is checked by the other cases)")
+        ctx.observe("append_outcome", type(e).__name__)
+        return
+    got = md.load(path)
+    f_id, _ = files.identify(got.xyz)
+    want = np.concatenate([np.arange(4) + F0_OLD, np.arange(nf)]) % 40
+    if got.n_frames != 4 + nf or not np.array_equal(f_id[:, 0], want):
+        ctx.violation("append.keeps-old", f"{tag}:old-frames-not-retained",
+                      f"appending {nf} frame(s) to 4 old ones: the file now holds {got.n_frames} frames identifying as {f_id[:, 0].astype(int).tolist()[:8]}, expected {want.tolist()}")
+    else:
+        ctx.ok("append.keeps-old")
+    ctx.observe("append_outcome", "appended")
+
+
+def _run_seq(case, ctx, d):
+    """the existing file is one this very process wrote a moment ago through the same entry point (nothing may be
+    remembered about the path from before), or a read handle on it is still open"""
+    import mdtraj as md
+    ext, entry, variant, nf, na = case["ext"], case["entry"], case["variant"], case["nf"], case.get("na", NA_NEW)
+    m = ALLEXT[ext]
+    idx = case.get("i", 0)
+    ctx.observe("extension", ext)
+    ctx.observe("entry", entry)
+    ctx.observe("sequence", variant)
+    single = bool(m.get("restart") or m.get("single"))
+    if entry in ("open", "class") and single and nf > 1:
+        ctx.skip("table", "a restart file object holds exactly one frame")
+        return
+    told = files.ident_traj(nf, na, cell="ortho", f0=F0_OLD)
+    tnew = files.ident_traj(nf, na, cell="ortho", f0=0)
+    path = os.path.join(d, "traj." + ext)
+    os.mkdir(os.path.join(d, "ctl"))
+    try:
+        _produce(os.path.join(d, "ctl", "traj." + ext), ext, tnew, entry, False, write=True)  # control
+        _produce(path, ext, told, entry, False, write=True)  # first call: nothing exists, must go through
+    except Exception as e:
+        ctx.skip("setup", f"{ext}/{entry}: force_overwrite=False on a fresh path fails ({type(e).__name__}): outside the domain")
+        return
+    pre = [o for o in _outputs(path, ext, nf, entry) if os.path.lexists(o)]
+    if not pre:
+        ctx.skip("setup", f"{ext}/{entry}: the first call produced no file")
+        return
+    handle = None
+    if variant == "read-handle-open":
+        try:
+            okw = {"n_atoms": na} if m["kind"] == "mdcrd" else {}
+            handle = md.open(pre[0], **okw)
+        except Exception as e:
+            ctx.skip("setup", f"{ext}: no read handle through md.open ({type(e).__name__})")
+            return
+    try:
+        _age(pre)
+        before = _snapshot(pre)
+        _arm(d, pre, idx)
+        raised = None
+        try:
+            _produce(path, ext, tnew, entry, False)
+        except Exception as e:
+            raised = e
+        events = _disarm(idx)
+    finally:
+        if handle is not None:
+            handle.close()
+    lay = {"created-now": "file-created-by-the-same-process", "read-handle-open": "file-held-open-for-reading"}[variant]
+    tag = f"{ext}:{m['saver'] if entry == 'saver' else entry}:force_overwrite=False:{lay}"
+    what = f"{ext} {entry}(force_overwrite=False) a second time on the output of the first call ({variant}, {nf} frame(s))"
+    changes = _diff(before)
+    if changes:
+        ctx.violation("fo=False.unchanged", f"{tag}:modified", f"{what}: existing path changed [{'+'.join(sorted({f for _, f in changes}))}]; call "
+                      f"{'raised ' + type(raised).__name__ if raised else 'did not raise'}")
+    else:
+        ctx.ok("fo=False.unchanged", len(before))
+    bad = _forbidden(events, pre)
+    if bad:
+        ctx.violation("fo=False.audit", f"{tag}:audit[{'+'.join(sorted({e for e, _, _ in bad}))}]", f"{what}: write-ish operation seen by the audit hook: {bad[:4]}")
+    else:
+        ctx.ok("fo=False.audit")
+    if raised is None:
+        ctx.violation("fo=False.raises", f"{tag}:no-error", f"{what}: the call returned without raising")
+    else:
+        ctx.ok("fo=False.raises")
+        ctx.observe("error_type", type(raised).__name__)
+
+
+def _run_defaults(case, ctx):
+    """what the docstring of an entry point promises for an omitted force_overwrite against what the signature does
+    (the behaviour under the signature default is exercised by the style='default' cases)"""
+    import mdtraj as md
+    seen = set()
+    targets = [("md.open", md.open), ("Trajectory.save", md.Trajectory.save)]
+    for ext, m in ALLEXT.items():
+        if "saver" in m:
+            targets.append(("Trajectory." + m["saver"], getattr(md.Trajectory, m["saver"])))
+        try:
+            targets.append((CLASSES[m["kind"]], _cls(m["kind"])))
+        except Exception:
+            continue
+    for name, fn in targets:
+        if name in seen:
+            continue
+        seen.add(name)
+        sig = None
+        for nm, dv in _sig_params(fn):
+            if nm == "force_overwrite":
+                sig = dv
+        doc = _documented_default(fn)
+        ctx.observe("force_overwrite_default", f"{name}: signature={sig} documented={doc}")
+        if sig is None or doc is None:
+            ctx.skip("default.documented", "the docstring states no default for force_overwrite (or the entry point has no such parameter)")
+        elif sig != doc:
+            ctx.violation("default.documented", f"{name}:force_overwrite-default:documented={doc}:actual={sig}",
+                          f"{name}: the docstring says force_overwrite defaults to {doc}, the signature default is {sig}: a caller who relies on the "
+                          f"documentation and omits the argument {'has an existing file overwritten without having asked for it' if sig else 'is refused'}")
+        else:
+            ctx.ok("default.documented")
 
 
 # --------------------------------------------------------------------------------------------------------------------
@@ -948,7 +1661,7 @@ def _fd_scan(path):
     """open file descriptors of this process that point at `path` (or into it, for dtr) with their open flags:
     sees native fopen()/open() handles that the audit hook cannot, as long as the handle is alive"""
     out = []
-    rp = os.path.realpath(path)
+    rp = os.path.realpath(os.fspath(path))
     for fd in os.listdir("/proc/self/fd"):
         try:
             t = os.readlink("/proc/self/fd/" + fd)
@@ -975,6 +1688,72 @@ def _read_entry(case, path, ext, top, n, na, note):
     okw = {"n_atoms": na} if ext in ("mdcrd", "crd") else {}
     bound = (n or 600) + 3
     kind = ALLEXT[ext]["kind"] if ext in ALLEXT else ext
+    if entry in ("load_fn", "load_fn-opts"):
+        from mdtraj.formats.registry import FormatRegistry
+        fn = FormatRegistry.loaders["." + ext]  # md.load_xtc, load_pdb, load_gro, load_restrt, ... : what md.load dispatches to
+        if kind == "h5":
+            kw = {}  # load_hdf5 takes no top=
+        if entry == "load_fn":
+            fn(path, **kw)
+        elif ext == "trr":  # see _TRR_HAZARD
+            fn(path, stride=3, **kw)
+        else:
+            fn(path, stride=3, atom_indices=np.array([2, 0]), **kw)
+        return
+    if entry == "load-frame-kw":
+        md.load(path, frame=(n or 2) // 2, **kw)
+        return
+    if entry == "load-topfile":
+        md.load(path, top=case["_topfile"])
+        md.load_frame(path, 0, top=case["_topfile"])
+        return
+    if entry == "class-r":
+        cls = _cls(kind) if kind in CLASSES else md.formats.ArcTrajectoryFile
+        args = _positional(cls, True, mode="r")
+        if kind == "mdcrd":
+            args[0] = na
+        f = cls(path, *args)  # mode and force_overwrite=True positionally: a read must not care
+        note(("fd", _fd_scan(path)))
+        try:
+            f.read()
+        finally:
+            f.close()
+        return
+    if entry == "open-r-fo":
+        f = md.open(path, "r", force_overwrite=True, **okw)
+        note(("fd", _fd_scan(path)))
+        try:
+            f.read()
+        finally:
+            f.close()
+        return
+    if entry == "open-nothing":
+        with md.open(path, **okw):
+            note(("fd", _fd_scan(path)))
+        return
+    if entry in ("open-seek-whence", "open-offsets", "open-past-eof") and kind not in ("pdb", "pdbx", "rst7", "ncrst"):
+        with md.open(path, **okw) as f:
+            note(("fd", _fd_scan(path)))
+            if entry == "open-seek-whence":
+                f.read(1)
+                f.seek(1, 1)
+                f.tell()
+                f.seek(-1, 2)
+                f.read()
+                f.seek(0, 0)
+                f.read(1)
+            elif entry == "open-offsets":
+                getattr(f, "offsets", None)
+                getattr(f, "n_atoms", None)
+                len(f)
+                getattr(f, "offsets", None)
+            else:
+                f.read()
+                f.read()
+                f.read(1)
+        return
+    if entry in ("open-seek-whence", "open-offsets", "open-past-eof"):
+        entry = "open-read"
     if entry.startswith("open-") and kind in ("pdb", "pdbx"):
         f = md.open(path)  # the PDB/PDBx file object parses in its constructor and exposes positions/topology
         note(("fd", _fd_scan(path)))
@@ -1059,6 +1838,7 @@ def _read_entry(case, path, ext, top, n, na, note):
 
 def _run_read(case, ctx, d):
     fmt, entry = case["fmt"], case["entry"]
+    form = case.get("form", "plain")
     idx = case.get("i", 0)
     try:
         path, ext, top, n, na = _read_file(case, d)
@@ -1067,23 +1847,66 @@ def _run_read(case, ctx, d):
         return
     ctx.observe("read_format", ext if case["src"] == "mdtraj" else "testdata:" + fmt)
     ctx.observe("read_entry", entry)
+    if form != "plain":
+        ctx.observe("read_path_form", form)
     if entry == "load_topology" and (case["src"] == "mdtraj" or fmt in TESTDATA) and ext not in ("pdb", "pdb.gz", "pdbx", "cif", "h5", "gro", "arc"):
         ctx.skip("table", "md.load_topology is not offered for this extension")
         return
     pre = [path]
+    case = dict(case)
+    if entry == "load-topfile":
+        if top is None:
+            ctx.skip("table", "the format carries its own topology: md.load takes no top= file")
+            return
+        import mdtraj as md
+        tf = os.path.join(d, "topology-file." + case.get("topfmt", "pdb"))
+        try:
+            md.Trajectory(np.zeros((1, top.n_atoms, 3), np.float32), top).save(tf)
+        except Exception as e:
+            ctx.skip("setup", f"topology file could not be produced: {type(e).__name__}")
+            return
+        case["_topfile"] = tf
+        pre.append(tf)
+        ctx.observe("read_topology_file_format", case.get("topfmt", "pdb"))
+    # path forms of the read-only clause
+    name = os.path.basename(path)
+    if form in ("unicode", "extupper"):
+        stem, _, e2 = name.partition(".")
+        name = ("l\u00e4s \u03b2." + e2) if form == "unicode" else stem + "." + e2.upper()
+        os.rename(path, os.path.join(d, name))
+        path = os.path.join(d, name)
+        pre[0] = path
+    call_name, call_form = name, form
+    if form == "symlink":
+        call_name = "ln-" + name
+        os.symlink(path, os.path.join(d, call_name))
+        pre.append(os.path.join(d, call_name))
+        call_form = "plain"
+    elif form in ("rofile", "rodir", "unicode", "extupper"):
+        call_form = "plain"
+    _with_form(call_form, d, call_name, lambda obj: None)
+    if form == "rofile":
+        _chmod_tree(pre, 0o444, 0o555)
     _age(pre)
+    os.utime(d, ns=(OLD_NS, OLD_NS))
+    if form == "rodir":
+        os.chmod(d, 0o555)
     before = _snapshot(pre)
     listing0 = sorted(os.listdir(d))
+    dstat0 = os.stat(d)
     seen = []
     _arm(d, pre, idx)
     raised = None
     try:
-        _read_entry(case, path, ext, top, n, na, seen.append)
+        _with_form(call_form, d, call_name, lambda obj: _read_entry(case, obj, ext, top, n, na, seen.append))
     except BaseException as e:  # a reader that fails has still run on the file
         if isinstance(e, (KeyboardInterrupt, SystemExit)):
             raise
         raised = e
     events = _disarm(idx)
+    dstat1 = os.stat(d)
+    if form == "rodir":
+        os.chmod(d, 0o755)
     lab = ext
     ename = re.sub(r"-.*", "", entry) if entry.startswith(("iterload", "load_frame")) else entry
     changes = _diff(before)
@@ -1100,7 +1923,7 @@ def _run_read(case, ctx, d):
     else:
         ctx.ok("read.audit")
     fds = [fl for x in seen if isinstance(x, tuple) and x[0] == "fd" for fl in x[1]]
-    if entry.startswith("open-"):
+    if entry.startswith("open-") or entry == "class-r":
         wr = [fl for fl in fds if (fl & os.O_ACCMODE) != os.O_RDONLY or fl & os.O_APPEND]
         if wr:
             ctx.violation("read.fdflags", f"{lab}:{ename}:descriptor-open-for-writing",
@@ -1110,9 +1933,30 @@ def _run_read(case, ctx, d):
         ctx.observe("live_descriptors_on_the_file_while_handle_open", min(len(fds), 9))
     nr = sum(1 for e, p, _ in events if e == "open-read" and (p == path or p.startswith(path + os.sep)))
     ctx.observe("python_level_read_opens_of_the_file", min(nr, 9))
-    created = sorted(set(os.listdir(d)) - set(listing0))
-    if created:
+    listing1 = sorted(os.listdir(d))
+    created = sorted(set(listing1) - set(listing0))
+    if listing1 != listing0:
         ctx.observe("read_created_sidecar_files", lab)
+        ctx.violation("read.no-sidecar", f"{lab}:{ename}:directory-listing-changed",
+                      f"reading {lab} through {entry} changed the directory of the file: created {created}, removed {sorted(set(listing0) - set(listing1))}")
+    elif (dstat1.st_mtime_ns, dstat1.st_mode) != (dstat0.st_mtime_ns, dstat0.st_mode):
+        ctx.violation("read.no-sidecar", f"{lab}:{ename}:directory-touched",
+                      f"reading {lab} through {entry} modified the directory of the file (an entry was created and removed again, or the mode changed)")
+    else:
+        ctx.ok("read.no-sidecar")
+    wr_any = [(e, os.path.basename(p_)) for e, p_, _ in events if e != "open-read"]
+    if wr_any:
+        # python-level write-ish operation anywhere in the directory of the file (the watched paths have their own monitor)
+        ctx.observe("read_python_level_writes_in_directory", f"{lab}:{ename}")
+    if form in ("rofile", "rodir"):
+        if _ROOT:
+            ctx.skip("read.readonly-ok", "running as root: permission bits do not bind, a reader that asks for write access would not be refused "
+                                         "(the descriptor-flag and snapshot monitors still apply)")
+        elif isinstance(raised, PermissionError):
+            ctx.violation("read.readonly-ok", f"{lab}:{ename}:read-needs-write-permission[{form}]",
+                          f"reading a {lab} file that is read-only ({form}) through {entry} fails with PermissionError: {str(raised)[:120]}")
+        else:
+            ctx.ok("read.readonly-ok")
     ctx.observe("read_call_outcome", "returned" if raised is None else type(raised).__name__)
 
 
@@ -1212,7 +2056,7 @@ def _run_strace(case, ctx):
             bad, ro = [], 0
             for sysc, paths, rest in calls:
                 for pth in paths:
-                    pa = pth if os.path.isabs(pth) else None
+                    pa = os.path.normpath(pth) if os.path.isabs(pth) else None  # ('..' after a real directory, '//', './')
                     if pa is None:
                         continue
                     if any(pa == x or pa.startswith(x + os.sep) for x in w["watch"]):
